@@ -16,7 +16,15 @@ import (
 func init() { register("C13", checkC13) }
 
 // quantity names an operand of a length comparison in the frame reader.
-func c13Quantity(info *types.Info, e ast.Expr, dataParam types.Object) string {
+// c13Data: the frame reader's data parameter and the parameters of package helpers it is handed to unchanged.
+type c13Data map[types.Object]bool
+
+func (d c13Data) is(info *types.Info, e ast.Expr) bool {
+	o := core.ObjOf(info, e)
+	return o != nil && d[o]
+}
+
+func c13Quantity(info *types.Info, e ast.Expr, dataParam c13Data) string {
 	e = ast.Unparen(e)
 	if v := core.ConstVal(info, e); v != nil && v.Kind() == constant.Int {
 		return "#" + v.ExactString()
@@ -26,7 +34,7 @@ func c13Quantity(info *types.Info, e ast.Expr, dataParam types.Object) string {
 		if tv, ok := info.Types[x.Fun]; ok && tv.IsType() && len(x.Args) == 1 {
 			return c13Quantity(info, x.Args[0], dataParam)
 		}
-		if id, ok := x.Fun.(*ast.Ident); ok && id.Name == "len" && len(x.Args) == 1 && isObj(info, x.Args[0], dataParam) {
+		if id, ok := x.Fun.(*ast.Ident); ok && id.Name == "len" && len(x.Args) == 1 && dataParam.is(info, x.Args[0]) {
 			return "len"
 		}
 	case *ast.SelectorExpr:
@@ -41,7 +49,7 @@ func c13Quantity(info *types.Info, e ast.Expr, dataParam types.Object) string {
 }
 
 // c13CondTags turns a comparison into ">=" facts on the branch where they hold.
-func c13CondTags(dataParam types.Object, hdrLen string) func(pkg *packages.Package, cond ast.Expr, branch bool) []flow.Tag {
+func c13CondTags(dataParam c13Data, hdrLen string) func(pkg *packages.Package, cond ast.Expr, branch bool) []flow.Tag {
 	return func(pkg *packages.Package, cond ast.Expr, branch bool) []flow.Tag {
 		be, ok := ast.Unparen(cond).(*ast.BinaryExpr)
 		if !ok {
@@ -94,11 +102,36 @@ func checkC13(r *core.Run) {
 		return
 	}
 	info := rd.Pkg.TypesInfo
-	var dataParam types.Object
+	dataParam := c13Data{}
 	for _, p := range paramObjs(rd) {
 		if p.Type().String() == "[]byte" {
-			dataParam = p
+			dataParam[p] = true
 		}
+	}
+	// helpers of the package that receive the data slice as it is (two levels)
+	for round, fns := 0, []*core.FuncInfo{rd}; round < 2; round++ {
+		var next []*core.FuncInfo
+		for _, f := range fns {
+			ast.Inspect(f.Decl.Body, func(n ast.Node) bool {
+				c, ok := n.(*ast.CallExpr)
+				if !ok {
+					return true
+				}
+				g := w.Info(core.Callee(f.Pkg.TypesInfo, c))
+				if g == nil || g.Pkg != rd.Pkg || g.Decl.Body == nil {
+					return true
+				}
+				ps := paramObjs(g)
+				for i, a := range c.Args {
+					if i < len(ps) && dataParam.is(f.Pkg.TypesInfo, a) {
+						dataParam[ps[i]] = true
+						next = append(next, g)
+					}
+				}
+				return true
+			})
+		}
+		fns = next
 	}
 	hdrConst := w.Lookup("pkg/remoting/getty", "Seatav1HeaderLength")
 	hdrLen := "16"
@@ -114,12 +147,8 @@ func checkC13(r *core.Run) {
 				return []flow.Tag{"read"}
 			case isBodyDecode(callee):
 				return []flow.Tag{"bodydecode"}
-			case callee != nil && w.Info(callee) != nil && callee.Pkg().Path() == pGetty && len(call.Args) > 0:
-				// helper taking the buffer (head map decoder): counts as reading
-				if t := pkg.TypesInfo.TypeOf(call.Args[0]); t != nil && strings.HasSuffix(t.String(), "bytes.ByteBuffer") {
-					return []flow.Tag{"read", "mapdecode"}
-				}
 			}
+			// helpers of the package taking the buffer (fixed header, head map) are analysed in Read's context
 			return nil
 		}}
 	key := core.ShortKey(rd.Obj)
@@ -145,7 +174,7 @@ func checkC13(r *core.Run) {
 						"the unsigned subtraction "+core.ExprString(x)+" is not dominated by a check that "+a+" >= "+b+": on non-frame bytes it wraps to a huge length")
 				}
 			case *ast.SliceExpr:
-				if isObj(info, x.X, dataParam) && x.Low != nil && c13Quantity(info, x.Low, dataParam) == "Head" {
+				if dataParam.is(info, x.X) && x.Low != nil && c13Quantity(info, x.Low, dataParam) == "Head" {
 					r.Sites++
 					r.Check(st.Has("len>=Total") && st.Has("Total>=Head"), "C13.underflow", key+" : data[HeadLength:] within bounds", w.Pos(x.Pos()), "len(data) >= TotalLength >= HeadLength",
 						"the slice data[HeadLength:] is not dominated by len(data) >= TotalLength >= HeadLength: a HeadLength beyond the available bytes panics (slice bounds out of range)")
@@ -341,29 +370,113 @@ func c13Mirror(r *core.Run, rd, wr *core.FuncInfo) {
 		r.Check(okSlot, "C13.mirror", "decodeHeapMap: empty "+slot.Name()+" assigns only "+slot.Name(), w.Pos(ifs.Pos()), "slot isolation", "the branch for an empty "+slot.Name()+" assigns '"+wrong+"' instead: an entry with an empty "+slot.Name()+" loses its other half")
 		return true
 	})
+	// a slot read through a helper of the package (buffer in, string out): one call per slot, nothing to mix up
+	var slotVars []types.Object
+	ast.Inspect(dm.Decl.Body, func(x ast.Node) bool {
+		as, ok := x.(*ast.AssignStmt)
+		if !ok || len(as.Rhs) != 1 {
+			return true
+		}
+		c, ok := ast.Unparen(as.Rhs[0]).(*ast.CallExpr)
+		if !ok {
+			return true
+		}
+		g := w.Info(core.Callee(dinfo, c))
+		if g == nil || g.Pkg != dm.Pkg || g.Decl.Body == nil {
+			return true
+		}
+		sig := g.Obj.Type().(*types.Signature)
+		if sig.Results().Len() == 0 {
+			return true
+		}
+		if b, ok := sig.Results().At(0).Type().(*types.Basic); !ok || b.Kind() != types.String {
+			return true
+		}
+		takesBuf := false
+		for _, a := range c.Args {
+			if t := dinfo.TypeOf(a); t != nil && strings.HasSuffix(t.String(), "bytes.ByteBuffer") {
+				takesBuf = true
+			}
+		}
+		if takesBuf {
+			n++
+			r.Sites++
+			if o := core.ObjOf(dinfo, as.Lhs[0]); o != nil {
+				slotVars = append(slotVars, o)
+			}
+		}
+		return true
+	})
+	if len(slotVars) >= 2 {
+		// the entry stored is (first slot, second slot)
+		stored := false
+		ast.Inspect(dm.Decl.Body, func(x ast.Node) bool {
+			as, ok := x.(*ast.AssignStmt)
+			if !ok || len(as.Lhs) != 1 || len(as.Rhs) != 1 {
+				return true
+			}
+			ix, ok := ast.Unparen(as.Lhs[0]).(*ast.IndexExpr)
+			if !ok {
+				return true
+			}
+			if _, isMap := dinfo.TypeOf(ix.X).Underlying().(*types.Map); !isMap {
+				return true
+			}
+			stored = true
+			k, v := core.ObjOf(dinfo, ix.Index), core.ObjOf(dinfo, as.Rhs[0])
+			r.Check(k == slotVars[0] && v == slotVars[1], "C13.mirror", "decodeHeapMap: entry stored as (first string read, second string read)", w.Pos(as.Pos()), "key = first slot, value = second slot",
+				"the head-map entry is stored as ("+core.ExprString(ix.Index)+", "+core.ExprString(as.Rhs[0])+"), not (first string read, second string read): keys and values are mixed up")
+			return true
+		})
+		if !stored {
+			r.Bad("C13.mirror", "decodeHeapMap: entry stored", w.Pos(dm.Decl.Pos()), "no store into the result map found")
+		}
+	}
 	if n < 2 {
 		r.Bad("C13.mirror", "decodeHeapMap: key and value slots", w.Pos(dm.Decl.Pos()), "expected two length-tested slots (key, value)")
 	}
 	// head map mirror: u16 len + raw, twice per entry, both sides
 	em := w.Func("pkg/remoting/getty", "", "encodeHeapMap")
 	if em != nil {
-		cnt := func(f *core.FuncInfo, kind func(*types.Func) string) string {
+		var cnt func(f *core.FuncInfo, kind func(*types.Func) string, depth int) string
+		cnt = func(f *core.FuncInfo, kind func(*types.Func) string, depth int) string {
 			var ks []string
 			ast.Inspect(f.Decl.Body, func(x ast.Node) bool {
 				if c, ok := x.(*ast.CallExpr); ok {
-					if k := kind(core.Callee(f.Pkg.TypesInfo, c)); k != "" {
+					callee := core.Callee(f.Pkg.TypesInfo, c)
+					if k := kind(callee); k != "" {
 						ks = append(ks, k)
+					} else if g := w.Info(callee); g != nil && g.Pkg == f.Pkg && g.Decl.Body != nil && g != f && depth > 0 {
+						// a helper of the package: its operations, once per call site
+						if sub := cnt(g, kind, depth-1); sub != "" {
+							ks = append(ks, sub)
+						}
 					}
 				}
 				return true
 			})
 			return strings.Join(ks, " ")
 		}
-		e := cnt(em, writeKind)
-		d := cnt(dm, readKind)
+		e := cnt(em, writeKind, 1)
+		d := cnt(dm, readKind, 1)
 		r.Sites++
-		// encoder: (u16 | u16 raw) x2 ; decoder: u16 raw u16 raw
-		okM := strings.Count(e, "u16") == 4 && strings.Count(e, "raw") == 2 && strings.Count(d, "u16") == 2 && strings.Count(d, "raw") == 2 && !strings.Contains(e+d, "u32") && !strings.Contains(e+d, "u8")
+		// per string: encoder (u16 | u16 raw) or the 16-bit string writer; decoder u16 raw or the 16-bit string reader
+		units := func(s string, inline string) int {
+			n := 0
+			for s != "" {
+				switch {
+				case strings.HasPrefix(s, inline):
+					s = strings.TrimPrefix(s[len(inline):], " ")
+				case strings.HasPrefix(s, "str16"):
+					s = strings.TrimPrefix(s[len("str16"):], " ")
+				default:
+					return -1
+				}
+				n++
+			}
+			return n
+		}
+		okM := units(e, "u16 u16 raw") == 2 && units(d, "u16 raw") == 2
 		r.Check(okM, "C13.mirror", "head map entries: 16-bit length + bytes for key and value on both sides", w.Pos(em.Decl.Pos()), "enc {"+e+"} dec {"+d+"}", "head-map encoder {"+e+"} and decoder {"+d+"} do not both use a 16-bit length followed by the bytes for key and value")
 	}
 }
